@@ -47,16 +47,17 @@ type violRec struct {
 }
 
 type sideRec struct {
-	Test    string               `json:"test"`
-	Rounds  int                  `json:"rounds"`
-	Cases   map[string]int       `json:"cases"` // class \x1f nt \x1f sig -> count
-	Classes map[string]int       `json:"classes"`
-	Extra   map[string]int64     `json:"extra"`
-	Known   map[string]*knownRec `json:"known"`
-	Viol    []violRec            `json:"viol"`
-	Samples map[string]Round     `json:"samples"`
-	Skipped int                  `json:"skipped"`
-	Done    bool                 `json:"done"`
+	Test      string               `json:"test"`
+	Rounds    int                  `json:"rounds"`
+	Cases     map[string]int       `json:"cases"` // class \x1f nt \x1f sig -> count
+	Classes   map[string]int       `json:"classes"`
+	Extra     map[string]int64     `json:"extra"`
+	Known     map[string]*knownRec `json:"known"`
+	Viol      []violRec            `json:"viol"`
+	Samples   map[string]Round     `json:"samples"`
+	Skipped   int                  `json:"skipped"`
+	BudgetCut int                  `json:"budget_cut"`
+	Done      bool                 `json:"done"`
 }
 
 var (
@@ -69,7 +70,11 @@ var (
 func isChild() bool { return os.Getenv("C16_CHILD") == "1" }
 
 func journalPath() string {
-	return filepath.Join(vkit.Root(), "replays", "C16", fmt.Sprintf("current.s%d.json", vkit.Shard()))
+	dir := filepath.Join(vkit.Root(), "replays", "C16")
+	if d := os.Getenv("VERIF_REPLAY_DIR"); d != "" {
+		dir = d
+	}
+	return filepath.Join(dir, fmt.Sprintf("current.s%d.json", vkit.Shard()))
 }
 
 // journal records the round that is about to run, so that a process crash is attributable.
@@ -192,8 +197,18 @@ func (c *component) child(t *testing.T) {
 	}
 	idx := 0
 	lastFlush := time.Now()
+	began := time.Now()
+	budget := time.Duration(0)
+	if ms, _ := strconv.Atoi(os.Getenv("C16_BUDGET_MS")); ms > 0 {
+		budget = time.Duration(ms) * time.Millisecond
+	}
 	prop := func(rt *rapid.T) {
 		if stopped {
+			return
+		}
+		if budget > 0 && time.Since(began) > budget {
+			// wall budget of the tier used up (loaded machine): the remaining rounds are not run
+			side.BudgetCut++
 			return
 		}
 		var r Round
@@ -257,6 +272,9 @@ func (c *component) feed(t *testing.T, s *sideRec) (violated bool) {
 	}
 	if s.Skipped > 0 {
 		vkit.Skipped(s.Skipped)
+	}
+	if s.BudgetCut > 0 {
+		vkit.AddExtra("rounds_not_run_wall_budget/"+c.name, int64(s.BudgetCut))
 	}
 	for cl, r := range s.Samples {
 		vkit.Sample(cl, r)
@@ -383,6 +401,10 @@ func readJournal() (Round, string) {
 func (c *component) supervise(t *testing.T, total int, fixed *Round) {
 	remaining := total
 	const maxCrashes = 3
+	budgetEnd := time.Now().Add(time.Duration(vkit.Pick(11, 110)) * time.Second)
+	if fixed != nil {
+		budgetEnd = time.Now().Add(240 * time.Second) // replay: the round count is the bound
+	}
 	crashes := 0
 	for attempt := 0; remaining > 0; attempt++ {
 		wd, _ := os.Getwd()
@@ -405,7 +427,8 @@ func (c *component) supervise(t *testing.T, total int, fixed *Round) {
 			}
 			env = append(env, e)
 		}
-		env = append(env, "C16_CHILD=1", "C16_SIDE="+sp, "C16_ROUNDS="+strconv.Itoa(remaining), "C16_ATTEMPT="+strconv.Itoa(attempt))
+		env = append(env, "C16_CHILD=1", "C16_SIDE="+sp, "C16_ROUNDS="+strconv.Itoa(remaining), "C16_ATTEMPT="+strconv.Itoa(attempt),
+			"C16_BUDGET_MS="+strconv.Itoa(int((budgetEnd.Sub(time.Now()))/time.Millisecond)+1))
 		if fixed != nil {
 			b, _ := json.Marshal(fixed)
 			env = append(env, "C16_FIXED_ROUND="+string(b))
@@ -422,6 +445,9 @@ func (c *component) supervise(t *testing.T, total int, fixed *Round) {
 		if runErr == nil && s != nil && s.Done {
 			os.Remove(lp)
 			os.Remove(sp)
+			return
+		}
+		if time.Now().After(budgetEnd) && runErr == nil {
 			return
 		}
 		// the child died
